@@ -27,9 +27,9 @@ LEVEL = "exploration"
 SHARDS = {"quick": 8, "thorough": 16}
 TIMEOUT_S = {"quick": 900, "thorough": 3600}
 BUDGET_S = {"quick": 150, "thorough": 1800}
-RULE = ("alphabet of 22 actions: poll answered by the simulator with {1 event, 2 events, a region-announcing event + 1, HTTP "
+RULE = ("alphabet of 23 actions: poll answered by the simulator with {1 event, 2 events, a region-announcing event + 1, HTTP "
         "502} x {response reaches the viewer, response lost (viewer re-polls with the stale ack)} x {addon swallows nothing, "
-        "the first event, every event}, proxy injects an event, region teardown. Exhaustive DFS to depth 4 (quick) / 6 "
+        "the first event, every event}, a response on which the proxy's own event handling fails half-way (malformed announcement), proxy injects an event, region teardown. Exhaustive DFS to depth 4 (quick) / 6 "
         "(thorough) with state hashing + random histories of 60 polls; every history ends with deliveries that are not lost. "
         "distinct_nontrivial = distinct hashed (viewer, cache, pending injection, region) states with at least one loss, "
         "swallow or injection")
@@ -40,7 +40,7 @@ ASSUMPTIONS = [
     "after a region teardown the viewer starts a new event-queue session (ack undefined)",
 ]
 MUST_REACH = {"polls": 3000, "replays_served": 50, "responses_lost": 100, "events_swallowed": 100, "emptied_responses": 20,
-              "injected_delivered": 100, "regions_announced": 30, "teardowns": 20, "states": 100, "histories_judged": 200, "announcing_events_covered": 4}
+              "injected_delivered": 100, "regions_announced": 30, "teardowns": 20, "states": 100, "histories_judged": 200, "announcing_events_covered": 4, "responses_whose_handling_failed": 30}
 
 KINDS = ["1", "2", "A", "5"]
 ACTIONS = []
@@ -48,7 +48,7 @@ for k in KINDS:
     for lose in ("", "L"):
         for sw in (("", "f", "a") if k != "5" else ("",)):
             ACTIONS.append(f"P{k}{lose}{sw}")
-ACTIONS += ["I", "D"]
+ACTIONS += ["PX", "I", "D"]
 
 
 class EQAddon:
@@ -165,6 +165,12 @@ class World:
             self.last_announced = addr
             self.ctx.count("regions_announced")
             self.next_serial += 1
+        if kind == "X":
+            # an event the proxy's own handling chokes on (announcement without a port)
+            evs.append({"message": "EstablishAgentCommunication",
+                        "body": {"agent-id": str(self.session.agent_id), "sim-ip-and-port": "10.9.9.%d" % (self.next_serial % 200 + 1),
+                                 "seed-capability": f"https://sim9.example.invalid/cap/seed-bad-{self.next_serial}"}})
+            self.next_serial += 1
         n = 2 if kind == "2" else 1
         for _ in range(n):
             evs.append({"message": "HVTestEvent", "body": {"serial": self.next_serial, "text": "line1\nline2"}})
@@ -243,6 +249,23 @@ class World:
             got = llsd.parse_xml(back.response.content)
         except Exception as e:
             self.viol("response-unparseable", "the rewritten event-queue response is not LLSD", exc=repr(e)[:200])
+            return
+        if kind == "X":
+            # handling failed half-way: the simulator's events must still reach the viewer once, in order, and pending injected
+            # events must not be lost - either they ride on this response or they stay queued for the next one
+            ctx.count("responses_whose_handling_failed")
+            got_serials = [serial_of(e) for e in got["events"]] if isinstance(got, dict) else None
+            if got_serials == serials:
+                pass                                            # passed through, injected events still pending
+            elif got_serials == serials + list(self.pending_injected):
+                self.pending_injected = []
+            else:
+                self.viol("events-wrong:after-handler-failure", "after the proxy failed while handling a response the viewer did not "
+                          "get exactly the simulator's events (optionally followed by the pending injected events)",
+                          got=got_serials, sent=serials, pending=list(self.pending_injected))
+                return
+            self.expected_stream.extend(got_serials)
+            self.deliver(got, False)
             return
         kept = [s for s in serials if s not in self.addon.swallow]
         expect = kept + list(self.pending_injected)
